@@ -188,7 +188,7 @@ def oom_matrix(tier):
     # not "larger than the maximum heap"
     for p in (["Immix", "SemiSpace", "GenCopy"] if tier == "quick" else [q for q in PLANS if q != "NoGC"]):
         runs.append(Run(p, name="oom-dyn", heap=16, sems="0,2", seed_off=3,
-                        extra=["--mode", "oom", "--rounds", "2" if tier == "quick" else "5",
+                        extra=["--mode", "oom", "--rounds", "3" if tier == "quick" else "6",
                                "--trigger", "DynamicHeapSize:3m,16m"]))
     # recorded defects, exercised on purpose
     runs.append(Run("NoGC", name="oom-hugesize-probe", heap=64, sems="0",
